@@ -106,6 +106,27 @@ func repoFrames(stack string) string {
 	return strings.Join(out, " < ")
 }
 
+// repoFunc names the function of the repository in which a panic happened (the first frame of
+// the panicking stack that lies in the repository), without the module path and arguments.
+func repoFunc(stack string) string {
+	lines := strings.Split(stack, "\n")
+	for i := 1; i < len(lines); i++ {
+		ln := strings.TrimSpace(lines[i])
+		if strings.HasPrefix(ln, "/") && strings.Contains(ln, "/repo/") && !strings.Contains(ln, "/verif/") {
+			fn := strings.TrimSpace(lines[i-1])
+			if j := strings.LastIndex(fn, "("); j > 0 {
+				fn = fn[:j]
+			}
+			fn = strings.TrimPrefix(fn, "github.com/youchainhq/go-youchain/")
+			if j := strings.LastIndex(fn, "/"); j >= 0 {
+				fn = fn[j+1:]
+			}
+			return fn
+		}
+	}
+	return "unknown"
+}
+
 // panicked turns a caught panic into a violation when it happened in code of the repository;
 // anything else is harness trouble and is raised again.
 func (w *world) panicked(class string, pv interface{}, stack string, format string, a ...interface{}) {
@@ -230,6 +251,80 @@ func (w *world) emit(typ string, data []byte, where string) {
 	}
 }
 
+// item is one node of an RLP tree (for comparing what went in with what comes out).
+type item struct {
+	list bool
+	str  []byte
+	kids []*item
+}
+
+func parseItems(b []byte, depth int) (items []*item, ok bool) {
+	for len(b) > 0 {
+		kind, content, rest, err := rlp.Split(b)
+		if err != nil || depth > 12 {
+			return nil, false
+		}
+		it := &item{}
+		if kind == rlp.List {
+			it.list = true
+			if it.kids, ok = parseItems(content, depth+1); !ok {
+				return nil, false
+			}
+		} else {
+			it.str = content
+		}
+		items = append(items, it)
+		b = rest
+	}
+	return items, true
+}
+
+// sameTree compares two RLP trees: "" if shape and contents agree, else "arity" (a list has a
+// different number of elements, or a list stands where a string stands) or "content" (same
+// shape, a string differs).
+func sameTree(a, b *item) string {
+	if a.list != b.list || len(a.kids) != len(b.kids) {
+		return "arity"
+	}
+	if !a.list {
+		if !bytes.Equal(a.str, b.str) {
+			return "content"
+		}
+		return ""
+	}
+	res := ""
+	for i := range a.kids {
+		switch sameTree(a.kids[i], b.kids[i]) {
+		case "arity":
+			return "arity"
+		case "content":
+			res = "content"
+		}
+	}
+	return res
+}
+
+// family names HOW an accepted input differs from its re-encoding, so that the class of an
+// accepted non-canonical input names the kind of leniency (one record type can have several):
+// trailing-bytes (the re-encoding is a prefix of the input: bytes behind the value are ignored),
+// encoding (the same RLP tree in a non-minimal encoding), arity (list elements are ignored or
+// merged), content (a field's bytes are normalised or lost), malformed (the input is not one
+// well-formed RLP item at all).
+func family(in, out []byte) string {
+	if len(out) < len(in) && bytes.Equal(in[:len(out)], out) {
+		return "trailing-bytes"
+	}
+	a, ok1 := parseItems(in, 0)
+	b, ok2 := parseItems(out, 0)
+	if !ok1 || !ok2 || len(a) != 1 || len(b) != 1 {
+		return "malformed"
+	}
+	if d := sameTree(a[0], b[0]); d != "" {
+		return d
+	}
+	return "encoding"
+}
+
 // userSupplied reports whether byte strings of the type are chosen by a transaction's sender
 // rather than produced by the node's own encoder.
 func userSupplied(typ string) bool {
@@ -277,7 +372,7 @@ func (w *world) accept(typ string, orig, mut []byte, label string) (accepted boo
 		return true
 	}
 	if !bytes.Equal(d.re, mut) {
-		w.r.Report("accepted-noncanonical:"+typ, "a corrupted %s (%s) is ACCEPTED by [%s] but re-encodes to different bytes (first difference at offset %d; %d bytes in, %d bytes out) | original %s | corrupted %s | re-encoded %s",
+		w.r.Report("accepted-noncanonical:"+typ+":"+family(mut, d.re), "a corrupted %s (%s) is ACCEPTED by [%s] but re-encodes to different bytes (first difference at offset %d; %d bytes in, %d bytes out) | original %s | corrupted %s | re-encoded %s",
 			typ, label, c.caller, firstDiff(d.re, mut), len(mut), len(d.re), hx(orig), hx(mut), hx(d.re))
 		w.r.Logf("  accepted-noncanonical %s %s", typ, label)
 		return true
